@@ -2,7 +2,7 @@
 cd /verif
 n=0
 while IFS='|' read -r id out dir checks needs; do
-  SEED_NAME="$id$SEED_SUFFIX" SEED_TEST_CMD="$SEED_TEST_CMD" ./confirm_seed.py "$id" "$out" "$dir" "$checks" "$needs" 2>&1 | grep -v '^\[' | cut -c1-400 &
+  SEED_NAME="$id${SEED_SUFFIX:--2}" SEED_TEST_CMD="$SEED_TEST_CMD" ./confirm_seed.py "$id" "$out" "$dir" "$checks" "$needs" 2>&1 | grep -v '^\[' | cut -c1-400 &
   n=$((n+1)); if [ $((n%4)) -eq 0 ]; then wait; fi
 done < "$1"
 wait
